@@ -33,7 +33,7 @@ LONGPOOL = ["in", "input", "output-file", "verbose-level", "name", "number-of-it
 
 
 def cases(tier):
-    return 8000 if tier == "quick" else 80000
+    return 8000 if tier == "quick" else 400000
 
 
 def make_desc(rng, n):
